@@ -58,7 +58,7 @@ class Prop:
             'every raw value of fields ≤ 8 bits, every six-bit character at the head of every text field, random} '
             'in random context, random payloads, unsupported types 28–63 and part numbers 2/3; each case is '
             'decoded by pyais, by the Lean model (correspondence) and checked against the Lean layout '
-            'specification (spec.check); non-trivial = pyais returned a message')
+            'specification (spec.check); non-trivial = pyais returned a message ; also as a byte stream in small pieces through the socket readers (the delivered sentence carries the payload sent) and through the communication-state view of radio-carrying messages')
     assumptions = ['float results of the scaled converters are compared as exact decimals (≤ 6 places); '
                    'IEEE-754 rounding inside round()/division is modelled in exact arithmetic']
     trusted_extra = ['Spec/Layout.lean (Appendix A of DESIGN.md) says what ITU-R M.1371 / gpsd say']
